@@ -406,11 +406,16 @@ std::string handle(const std::string& op, Args& a)
 				o.j = a.u64();
 				o.x = a.dbl();
 			}
-			else if(o.k == "DR" || o.k == "DC")
+			else if(o.k == "DR" || o.k == "DC" || o.k == "RR" || o.k == "RC")
 				o.i = a.u64();
+			else if(o.k == "SM")
+			{
+				o.i = a.u64();
+				o.j = a.u64();
+			}
 			else if(o.k == "+" || o.k == "-" || o.k == "=" || o.k == "C")
 				o.B = rd_mat(a);
-			else if(!(o.k == "N" || o.k == "T" || o.k == "D" || o.k == "P" || o.k == "Y" || o.k == "S"))
+			else if(!(o.k == "N" || o.k == "T" || o.k == "D" || o.k == "P" || o.k == "Y" || o.k == "S" || o.k == "O" || o.k == "I" || o.k == "AY" || o.k == "DG"))
 				throw BadArgs("matrix op " + o.k);
 		}
 		a.end();
@@ -456,6 +461,28 @@ std::string handle(const std::string& op, Args& a)
 					A.Delete_Row(p.i);
 				else if(p.k == "DC")
 					A.Delete_Column(p.i);
+				else if(p.k == "RR")
+				{
+					Vector w = A.Return_Row(p.i);
+					for(unsigned i = 0; i < w.Size(); i++)
+						o << w[i];
+				}
+				else if(p.k == "RC")
+				{
+					Vector w = A.Return_Column(p.i);
+					for(unsigned i = 0; i < w.Size(); i++)
+						o << w[i];
+				}
+				else if(p.k == "SM")
+					put(o, A.Sub_Matrix((int) p.i, (int) p.j));
+				else if(p.k == "O")
+					o << (int) A.Orthogonal();
+				else if(p.k == "I")
+					o << (int) A.Invertible();
+				else if(p.k == "AY")
+					o << (int) A.Antisymmetric();
+				else if(p.k == "DG")
+					o << (int) A.Diagonal();
 			}
 		});
 	}
